@@ -108,6 +108,15 @@ static int json_patch_apply_remove(struct json_object **res, const char *path, s
 	return rc;
 }
 
+/* Deep copy that also accepts a JSON null (NULL) source */
+static int json_patch_copy_value(struct json_object *src, struct json_object **dst)
+{
+	*dst = NULL;
+	if (src == NULL)
+		return 0;
+	return json_object_deep_copy(src, dst, NULL);
+}
+
 // callback for json_pointer_set_with_array_cb()
 static int json_object_array_insert_idx_cb(struct json_object *parent, size_t idx,
                                            struct json_object *value, void *priv)
@@ -148,7 +157,14 @@ static int json_patch_apply_add_replace(struct json_object **res,
 		return -1;
 	}
 
-	rc = json_pointer_set_with_array_cb(res, path, json_object_get(value),
+	/* The document gets its own copy: sharing the node with the patch would let
+	 * later operations on that location modify the patch itself. */
+	if (json_patch_copy_value(value, &value) < 0) {
+		_set_err(ENOMEM, "Unable to copy the 'value' field");
+		return -1;
+	}
+
+	rc = json_pointer_set_with_array_cb(res, path, value,
 					    json_object_array_insert_idx_cb, &add);
 	if (rc)
 	{
@@ -198,6 +214,8 @@ static int json_patch_apply_move_copy(struct json_object **res,
 	struct json_object *jfrom;
 	const char *from_s;
 	size_t from_s_len;
+	void *array_set_priv = &from; /* for json_object_array_move_cb */
+	int add = 1;                  /* for json_object_array_insert_idx_cb */
 	int rc;
 
 	if (!json_object_object_get_ex(patch_elem, "from", &jfrom)) {
@@ -242,11 +260,17 @@ static int json_patch_apply_move_copy(struct json_object **res,
 
 	// Note: it's impossible for json_pointer to find the root obj, due
 	// to the path check above, so from.parent is guaranteed non-NULL
-	json_object_get(from.obj);
-
 	if (!move) {
+		/* "copy" adds an independent copy of the value, not a second
+		 * reference to the same node */
+		if (json_patch_copy_value(from.obj, &from.obj) < 0) {
+			_set_err(ENOMEM, "Unable to copy the value referenced by 'from' field");
+			return -1;
+		}
 		array_set_cb = json_object_array_insert_idx_cb;
+		array_set_priv = &add;
 	} else {
+		json_object_get(from.obj);
 		rc = __json_patch_apply_remove(&from);
 		if (rc < 0) {
 			json_object_put(from.obj);
@@ -255,7 +279,7 @@ static int json_patch_apply_move_copy(struct json_object **res,
 		array_set_cb = json_object_array_move_cb;
 	}
 
-	rc = json_pointer_set_with_array_cb(res, path, from.obj, array_set_cb, &from);
+	rc = json_pointer_set_with_array_cb(res, path, from.obj, array_set_cb, array_set_priv);
 	if (rc)
 	{
 		_set_err(errno, "Failed to set value at path referenced by 'path' field");
